@@ -168,3 +168,49 @@ func H_safe_bsdiff() {
 	}
 	rt.Reach("end")
 }
+
+// H_safe_real: regime R - no constant is scaled (64 KiB blocks, 32 KiB copy buffers). The old file has
+// nb full blocks and a 100-byte tail, all concrete; the new file replaces block 0 by fresh bytes and keeps
+// the rest, so the patch copies ONE run of consecutive old blocks; the damaged old file differs from the
+// pristine one in a single symbolic byte inside block `blk` of that run. Params: nb, blk.
+func H_safe_real() {
+	hlib.SetCopyBuf()
+	B := hlib.B()
+	nb, blk := rt.Param("nb"), rt.Param("blk")
+	O := make([]byte, nb*B+100)
+	x := uint32(12345)
+	for i := range O {
+		x = x*1103515245 + 12345
+		O[i] = byte(x >> 16)
+	}
+	N := append([]byte{}, O...)
+	for i := 0; i < B; i++ {
+		N[i] ^= 0x5a
+	}
+	root := rt.TempDir()
+	oldB := &hlib.Build{Files: []hlib.File{{Path: "f", Data: O}}}
+	newB := &hlib.Build{Files: []hlib.File{{Path: "f", Data: N}}}
+	oldB.Write(root + "/old")
+	newB.Write(root + "/new")
+	d := hlib.Diff(root+"/old", root+"/new")
+	sig := hlib.SigBytes(root + "/old")
+
+	A := append([]byte{}, O...)
+	pos := blk*B + 7
+	if pos >= len(A) {
+		pos = len(A) - 1
+	}
+	dmgByte := rt.Byte("damaged-byte")
+	A[pos] = dmgByte
+	dmg := root + "/damaged"
+	hlib.Must(os.MkdirAll(dmg, 0o755), "mkdir")
+	hlib.Must(os.WriteFile(dmg+"/f", A, 0o644), "write damaged")
+	err := applySafe(d.Patch, sig, dmg, root+"/out")
+	if dmgByte == O[pos] {
+		rt.Assert(err == nil, "an undamaged old build is never rejected (real constants)")
+	}
+	if err == nil {
+		hlib.AssertSame(hlib.Snapshot(root+"/out"), newB.Entries(), "success implies output == new (real constants)")
+	}
+	rt.Reach("end")
+}
